@@ -146,10 +146,10 @@ def conditions(tier):
         return list(zip([0] + cuts, cuts + [0x110000]))
     if quick:
         wild = [('defaults', 'braces', 'replace', 'alone', '?'), ('defaults', 'braces', 'replace', 'a_r', '?a'),
-                ('defaults', 'braces-after-macro', 'fail', 'bs_l', '\\?'), ('unicode-xml', 'braces', 'replace', 'alone', '?'),
-                ('unicode-xml', 'braces-after-macro', 'fail', 'br', '{?}')]
+                ('defaults', 'braces-after-macro', 'ignore', 'bs_l', '\\?'), ('unicode-xml', 'braces', 'replace', 'alone', '?'),
+                ('unicode-xml', 'braces-after-macro', 'replace', 'br', '{?}')]
     else:
-        wild = [(rs, sc, pol, tag, sk) for rs in ('defaults', 'unicode-xml') for pol in ('replace', 'ignore', 'fail', 'keep')
+        wild = [(rs, sc, pol, tag, sk) for rs in ('defaults', 'unicode-xml') for pol in ('replace', 'ignore', 'keep')
                 for sc in ('braces', 'braces-after-macro') for tag, sk in ([('alone', '?')] + ([('a_r', '?a'), ('bs_l', '\\?'), ('br', '{?}'), ('sp', '? x'),
                                                                          ('pc', '?%')] if pol != 'keep' else []))]
     for rs, sc, pol, tag, sk in wild:
@@ -165,13 +165,15 @@ def conditions(tier):
         conds.append(Cond('modfn_%d' % i, 'k1: int, k2: int', ['0 <= k1 < 5', '0 <= k2 < 5'], 'body_modfn(%r, k1, k2)' % t,
                           timeout=T, twin=False, smoke=[dict(k1=0, k2=1), dict(k1=4, k2=0)],
                           descr='module-level helper, all ordered pairs of the 5 policies, input %r' % t))
-    # unihex: hex formatting realises the code point; small ranges incl. control, combining, astral, unassigned
+    # unihex / fail: hex formatting (also in the error message of 'fail') realises the code point; small ranges incl.
+    # control, combining, astral, unassigned characters
     for rs in ('defaults',) if quick else ('defaults', 'unicode-xml'):
         for lo, hi in ((0, 32), (127, 140), (0x300, 0x308), (0x1d400, 0x1d404), (0xfffe, 0x10001)):
-            conds.append(Cond('unihex_%s_%x' % (rs.replace('-', ''), lo), 't: str',
-                              ['len(t) == 1', '%d <= ord(t[0]) < %d' % (lo, hi)],
-                              'body_inert(t, %r, %r, %r)' % (rs, 'braces', 'unihex'), timeout=T, twin=False,
-                              smoke=[dict(t=chr(lo))]))
+            for pol in ('unihex', 'fail'):
+                conds.append(Cond('%s_%s_%x' % (pol, rs.replace('-', ''), lo), 't: str',
+                                  ['len(t) == 1', '%d <= ord(t[0]) < %d' % (lo, hi)],
+                                  'body_inert(t, %r, %r, %r)' % (rs, 'braces', pol), timeout=T, twin=False,
+                                  smoke=[dict(t=chr(lo))]))
     return conds
 
 
@@ -182,7 +184,8 @@ META = dict(
     bounds=dict(quick='every string of length <= 2 over the ten LaTeX-active ASCII characters plus {a, space, newline, [} for both '
                       'tables x 5 protection schemes, length 3 for 2 table/scheme pairs; one wildcard character over all Unicode '
                       '(control, combining, astral, unassigned included), alone and next to pinned ASCII neighbours, both tables, '
-                      'policies replace and fail; unihex on 5 code-point ranges',
+                      'policies replace and ignore; unihex and fail (exactness of the ValueError) on 5 code-point ranges; the module-level '
+                      'helper after a call with another policy',
                 thorough='length 3 for all 10 table/scheme pairs; wildcard under 4 policies x 2 schemes with 6 neighbour skeletons'),
     stubs=['unicodedata.normalize -> identity (claim on the NFC string)', 'BisectMap around both tables', 'logging disabled',
            'step budget on the parse of the output'],
